@@ -78,29 +78,6 @@ def targeted(rng):
             f([one_i], 1, extra_first='frames') , f([one_i], 1) + f([one_i], 1, extra_first='channels')]
 
 
-def rewrite_history(rng):
-    """P; write; Q; write in one process, against P; Q; write in a fresh process. Q only edits the specification:
-    assignments (incl. values of another kind) and origin_reference changes to another origin of the logical file."""
-    prog, _ = apistream.gen_program(rng, flavor='valid')
-    body = [s for s in prog if s['op'] != 'write']
-    fh = next((s.get('_fh_id') for s in body if s['op'] == 'origin'), 'H')
-    body.append({'op': 'origin', 'lf': 0, 'name': specgen.r_str('ORIGIN-77'), 'set_name': None, 'origin': specgen.r_int(77), '_fh_id': fh,
-                 'kw': {'file_set_number': specgen.r_int(3), 'creation_time': specgen.r_str('2020/01/01 00:00:00')}})
-    created = [s for s in body if s['op'] in ('origin', 'add', 'channel', 'frame')]
-    q = apistream.rekind_assignments(rng, body, limit=4)
-    tail = [s for s in apistream.add_assignments(rng, body) if s['op'] == 'assign' and s not in body
-            and s['_type'] not in ('calibration_measurement', 'parameter', 'computation', 'channel', 'frame')]
-    q += tail[:3]
-    # an arbitrary Python object is written through str(): its repr holds a memory address, which differs between processes
-    q = [x for x in q if '"other"' not in json.dumps(x.get('raw'))]
-    movable = [i for i, s in enumerate(created) if s['op'] != 'origin' and s.get('lf', 0) == 0]
-    rng.shuffle(movable)
-    for i in movable[:rng.choice([0, 1, 2, 3])]:
-        q.append({'op': 'set_origin', 'obj': i, 'raw': specgen.r_int(77)})
-    rng.shuffle(q)
-    return body + [{'op': 'write'}] + q + [{'op': 'write'}], body + q + [{'op': 'write'}]
-
-
 def run(ctx):
     rng = ctx.rng('hist')
     n = 25 if ctx.tier == 'quick' else 300
@@ -140,7 +117,7 @@ def run_rewrites(ctx):
     rng = ctx.rng('rewrite')
     n = 25 if ctx.tier == 'quick' else 250
     for k in range(n):
-        hist, fresh = rewrite_history(rng)
+        hist, fresh = apistream.rewrite_history(rng)
         r = apistream.run_one(ctx, hist, 'K-api-rewrite')
         ctx.count('K-rewrite', key=k)
         det = {'history': apistream.strip_private(hist), 'fresh_program': apistream.strip_private(fresh)}
@@ -160,8 +137,8 @@ def run_rewrites(ctx):
         except Exception as e:  # noqa
             ctx.violation('fresh-subprocess-failed', {'error': str(e)[:300]})
             continue
-        q_hist = [o[0] for s, o in zip(hist, r['outs']) if s['op'] in ('assign', 'set_origin')]
-        q_fresh = [o for s, o in zip(fresh, fr['outs']) if s['op'] in ('assign', 'set_origin')]
+        q_hist = [o[0] for s, o in zip(hist, r['outs']) if s['op'] in ('assign', 'set_origin', 'set_header')]
+        q_fresh = [o for s, o in zip(fresh, fr['outs']) if s['op'] in ('assign', 'set_origin', 'set_header')]
         if q_hist != q_fresh:
             ctx.violation('edit-accepted-only-before-or-only-after-a-write', {**det, 'after_write': q_hist, 'fresh': q_fresh})
             continue
